@@ -40,7 +40,7 @@ def entity_decl(e):
         head += "\n  SUBTYPE OF (" + ", ".join(e["supers"]) + ")"
     out = [head + ";"]
     for r in e.get("redecl", []):          # redeclared inherited attributes stand before the entity's own
-        out.append("  SELF\\%s.%s : %s;" % (r["of"], r["name"], typeref(r["ty"])))
+        out.append("  SELF\\%s.%s : %s%s;" % (r["of"], r["name"], "OPTIONAL " if r.get("opt") else "", typeref(r["ty"])))
     for a in e["attrs"]:
         out.append("  %s : %s%s;" % (a["name"], "OPTIONAL " if a["opt"] else "", typeref(a["ty"])))
     if e["derive"]:
